@@ -174,7 +174,24 @@ func busy(stack string) bool {
 			strings.Contains(lines[1], "collection.verifC12RelayLoop(")) {
 		return false
 	}
+	// a helper goroutine of the wheel itself (not the public API, not a callback, not the drain
+	// runner) parked waiting for work - a refactoring may add long-lived workers - is at rest
+	if len(lines) >= 2 && (strings.Contains(lines[0], "[chan receive") || strings.Contains(lines[0], "[select")) &&
+		strings.Contains(lines[1], "collection.(*TimingWheel).") && !apiFrame(lines[1]) &&
+		!strings.Contains(stack, "verifh/c12x.") && !strings.Contains(stack, "go-zero/core/threading") &&
+		!strings.Contains(stack, "collection.(*TimingWheel).run(") {
+		return false
+	}
 	return true
+}
+
+func apiFrame(l string) bool {
+	for _, m := range []string{"SetTimer(", "MoveTimer(", "RemoveTimer(", "Drain(", "Stop("} {
+		if strings.Contains(l, "collection.(*TimingWheel)."+m) {
+			return true
+		}
+	}
+	return false
 }
 
 // the run loop of some wheel is parked in a blocking operation inside one of its handlers
